@@ -1762,6 +1762,14 @@ def rule_r23(prog, res):
     res.floor('R23', 'validate_freq reads in array readers', n, 1)
 
 
+def rule_r24(prog, res):
+    from . import c04
+    from ..report import Result
+    res.share('R24', 'the enumeration facet is a membership test in the '
+              'declared values, in the validator and in the readers (C04-R7)',
+              'C04', c04.rule_r7, prog, Result)
+
+
 def run(prog, res, tier):
     res.run_rule(rule_r1, prog, res)
     res.run_rule(rule_r2, prog, res)
@@ -1787,6 +1795,7 @@ def run(prog, res, tier):
     res.run_rule(rule_r21, prog, res)
     res.run_rule(rule_r22, prog, res)
     res.run_rule(rule_r23, prog, res)
+    res.run_rule(rule_r24, prog, res)
 
 
 _X = 'spyne/protocol/xml.py'
